@@ -304,4 +304,28 @@ def existsFeasible (c : Ctx) (j : JobS) : Bool :=
 
 def baseFeasible (c : Ctx) : Bool := tourFeas c.m.t c.veh c.acts && capOk c.cap c.dems
 
+/-! ## decidable form of the input hypotheses of the completeness theorem
+
+`C06Complete.evalJob_any_complete_hyps`: `completeHyps c j = true → existsFeasible c j = true → (evalJob c j .any).isSome`.
+The driver evaluates it on every generated case, so the evidence says how many cases the theorem speaks about. -/
+
+def demWF (n : Nat) (d : Dem) : Bool :=
+  d.sp.length == n && d.dp.length == n && d.sd.length == n && d.dd.length == n
+
+/-- in every dimension: no static pickup next to a larger dynamic delivery -/
+def demShape (n : Nat) (d : Dem) : Bool :=
+  (List.range n).all (fun k => d.sp.getD k 0 == 0 || decide (d.dd.getD k 0 ≤ d.dp.getD k 0))
+
+def completeHyps (c : Ctx) (j : JobS) : Bool :=
+  c.dems.all (demWF c.cap.length) &&
+  (match j.dem with
+   | none => true
+   | some d => demWF c.cap.length d && demShape c.cap.length d) &&
+  c.m.dur.all (fun x => decide (0 ≤ x)) &&
+  c.acts.all (fun a => decide (0 ≤ a.dur)) &&
+  decide (0 ≤ c.veh.dep) && decide (c.veh.earliest ≤ c.veh.dep) &&
+  baseFeasible c &&
+  (loadProfile c.zero c.dems).all (fun l => l.all (fun v => decide (0 ≤ v))) &&
+  j.places.all (fun p => decide (0 ≤ p.dur) && p.tws.all (fun w => decide (w.1 ≤ w.2)))
+
 end C06
